@@ -829,6 +829,17 @@ def rotations_from_rotvecs(u):
     return u._new(Rm, ONE, DType.rotation3, None, u.buf.nan, _and(u.buf.defd, th != 0), None)
 
 
+def full(*, value, sizes=None, dims=None, shape=None, unit=_DEFAULT, dtype=None, variance=None):
+    if variance is not None:
+        raise Unsupported('full with variance')
+    v = scalar(value, unit=unit, dtype=dtype)
+    ds = tuple(sizes) if sizes is not None else tuple(dims or ())
+    v.dims = ds
+    if sizes is not None:
+        v._sizes.update({k: s_ for k, s_ in sizes.items() if not isinstance(s_, tuple)})
+    return v
+
+
 def index(value, dtype=None):
     return scalar(value, unit=None, dtype=dtype)
 
@@ -1149,7 +1160,7 @@ def build_modules():
         units=units, constants=const, typing=typing_, spatial=spatial,
         scalar=scalar, vector=vector, index=index, to_unit=to_unit, sqrt=sqrt, reciprocal=reciprocal,
         sin=sin, cos=cos, atan2=atan2, asin=asin, acos=acos, exp=exp, log=log, norm=norm, dot=dot, cross=cross,
-        concat=concat, vectors=vectors, where=where, any=any_, all=all_, max=max_, min=min_, abs=abs_, isnan=isnan, identical=identical,
+        full=full, concat=concat, vectors=vectors, where=where, any=any_, all=all_, max=max_, min=min_, abs=abs_, isnan=isnan, identical=identical,
     ).items():
         setattr(sc, k, v)
     return {'scipp': sc, 'scipp.units': units, 'scipp.constants': const, 'scipp.typing': typing_,
